@@ -569,3 +569,255 @@ Example C18_cli_args_example :
   (dor d <- Cli.kv_parse None [[122; 61; 51]]; Cli.cast_params ex_prims d ex_types) = Err 25 /\
   SrcCliArgs.src_str_to_bool unit unit ex_prims [89; 69; 83] = Ok true.
 Proof. vm_compute. repeat split; reflexivity. Qed.
+
+(* ---- the argparse option tables: get_parser() of calculate_scores / select_next_plate / train_model / prepare_retrospective_simulation / reveal_plate / extract_screen_metadata / calculate_distance_matrix / evaluate_model / analyze_model_evaluation, re-read from /repo on every run by the fail-closed reader
+   harness/argparse_reader.py (Generated/SrcParser_<command>.v; a get_parser that is not a plain sequence of literal
+   parser.add_argument calls is refused and these theorems stop compiling).  What the argument records of Model/Cli.v assume of
+   the namespace parse_args() yields - the premise of the C??_model_is_source_cli_* links - is provided by the declared options:
+   Cli.declares = the attribute is the dest of EXACTLY ONE option, which stores the assumed kind of value and can be None exactly
+   where the record has an option type; Cli.dests_derived = the dest the reader computed is argparse's derivation from the flags;
+   Cli.dests_distinct = no dest and no flag is declared twice; Cli.seed_declared = --seed is an int option with a non-negative int
+   default (get_prng_from_seed_argument never sees None); Cli.coordinates_int = --n-chunks / --chunk-index / --n-chains /
+   --chain-index are int options that are never None; Cli.params_kv = every --*-param option accumulates through KVAppendAction;
+   Cli.fraction_declared = --holdout-fraction is a float option with a default in [0, 1]. ---- *)
+
+From Batchie Require Model.Cli Proofs.C18Parser Generated.SrcParser_calculate_scores Proofs.C18SourceParser_calculate_scores Generated.SrcParser_select_next_plate Proofs.C18SourceParser_select_next_plate Generated.SrcParser_train_model Proofs.C18SourceParser_train_model Generated.SrcParser_prepare_retrospective_simulation Proofs.C18SourceParser_prepare_retrospective_simulation Generated.SrcParser_reveal_plate Proofs.C18SourceParser_reveal_plate Generated.SrcParser_extract_screen_metadata Proofs.C18SourceParser_extract_screen_metadata Generated.SrcParser_calculate_distance_matrix Proofs.C18SourceParser_calculate_distance_matrix Generated.SrcParser_evaluate_model Proofs.C18SourceParser_evaluate_model Generated.SrcParser_analyze_model_evaluation Proofs.C18SourceParser_analyze_model_evaluation.
+Theorem C18_source_parser_calculate_scores_fields :
+  forall f, In f (Cli.cs_fields ++ Cli.logging_fields) -> Cli.declares SrcParser_calculate_scores.src_parser_calculate_scores f.
+Proof. exact C18SourceParser_calculate_scores.parser_calculate_scores_fields. Qed.
+Print Assumptions C18_source_parser_calculate_scores_fields.
+
+Theorem C18_source_parser_calculate_scores_dests_derived :
+  Cli.dests_derived SrcParser_calculate_scores.src_parser_calculate_scores.
+Proof. exact C18SourceParser_calculate_scores.parser_calculate_scores_dests_derived. Qed.
+Print Assumptions C18_source_parser_calculate_scores_dests_derived.
+
+Theorem C18_source_parser_calculate_scores_dests_distinct :
+  Cli.dests_distinct SrcParser_calculate_scores.src_parser_calculate_scores.
+Proof. exact C18SourceParser_calculate_scores.parser_calculate_scores_dests_distinct. Qed.
+Print Assumptions C18_source_parser_calculate_scores_dests_distinct.
+
+Theorem C18_source_parser_calculate_scores_seed :
+  Cli.seed_declared SrcParser_calculate_scores.src_parser_calculate_scores.
+Proof. exact C18SourceParser_calculate_scores.parser_calculate_scores_seed. Qed.
+Print Assumptions C18_source_parser_calculate_scores_seed.
+
+Theorem C18_source_parser_calculate_scores_coordinates :
+  Cli.coordinates_int SrcParser_calculate_scores.src_parser_calculate_scores.
+Proof. exact C18SourceParser_calculate_scores.parser_calculate_scores_coordinates. Qed.
+Print Assumptions C18_source_parser_calculate_scores_coordinates.
+
+Theorem C18_source_parser_calculate_scores_params :
+  Cli.params_kv SrcParser_calculate_scores.src_parser_calculate_scores.
+Proof. exact C18SourceParser_calculate_scores.parser_calculate_scores_params. Qed.
+Print Assumptions C18_source_parser_calculate_scores_params.
+
+Theorem C18_source_parser_select_next_plate_fields :
+  forall f, In f (Cli.sn_fields ++ Cli.logging_fields) -> Cli.declares SrcParser_select_next_plate.src_parser_select_next_plate f.
+Proof. exact C18SourceParser_select_next_plate.parser_select_next_plate_fields. Qed.
+Print Assumptions C18_source_parser_select_next_plate_fields.
+
+Theorem C18_source_parser_select_next_plate_dests_derived :
+  Cli.dests_derived SrcParser_select_next_plate.src_parser_select_next_plate.
+Proof. exact C18SourceParser_select_next_plate.parser_select_next_plate_dests_derived. Qed.
+Print Assumptions C18_source_parser_select_next_plate_dests_derived.
+
+Theorem C18_source_parser_select_next_plate_dests_distinct :
+  Cli.dests_distinct SrcParser_select_next_plate.src_parser_select_next_plate.
+Proof. exact C18SourceParser_select_next_plate.parser_select_next_plate_dests_distinct. Qed.
+Print Assumptions C18_source_parser_select_next_plate_dests_distinct.
+
+Theorem C18_source_parser_select_next_plate_seed :
+  Cli.seed_declared SrcParser_select_next_plate.src_parser_select_next_plate.
+Proof. exact C18SourceParser_select_next_plate.parser_select_next_plate_seed. Qed.
+Print Assumptions C18_source_parser_select_next_plate_seed.
+
+Theorem C18_source_parser_select_next_plate_params :
+  Cli.params_kv SrcParser_select_next_plate.src_parser_select_next_plate.
+Proof. exact C18SourceParser_select_next_plate.parser_select_next_plate_params. Qed.
+Print Assumptions C18_source_parser_select_next_plate_params.
+
+Theorem C18_source_parser_train_model_fields :
+  forall f, In f (Cli.tm_fields ++ Cli.logging_fields) -> Cli.declares SrcParser_train_model.src_parser_train_model f.
+Proof. exact C18SourceParser_train_model.parser_train_model_fields. Qed.
+Print Assumptions C18_source_parser_train_model_fields.
+
+Theorem C18_source_parser_train_model_dests_derived :
+  Cli.dests_derived SrcParser_train_model.src_parser_train_model.
+Proof. exact C18SourceParser_train_model.parser_train_model_dests_derived. Qed.
+Print Assumptions C18_source_parser_train_model_dests_derived.
+
+Theorem C18_source_parser_train_model_dests_distinct :
+  Cli.dests_distinct SrcParser_train_model.src_parser_train_model.
+Proof. exact C18SourceParser_train_model.parser_train_model_dests_distinct. Qed.
+Print Assumptions C18_source_parser_train_model_dests_distinct.
+
+Theorem C18_source_parser_train_model_seed :
+  Cli.seed_declared SrcParser_train_model.src_parser_train_model.
+Proof. exact C18SourceParser_train_model.parser_train_model_seed. Qed.
+Print Assumptions C18_source_parser_train_model_seed.
+
+Theorem C18_source_parser_train_model_coordinates :
+  Cli.coordinates_int SrcParser_train_model.src_parser_train_model.
+Proof. exact C18SourceParser_train_model.parser_train_model_coordinates. Qed.
+Print Assumptions C18_source_parser_train_model_coordinates.
+
+Theorem C18_source_parser_train_model_params :
+  Cli.params_kv SrcParser_train_model.src_parser_train_model.
+Proof. exact C18SourceParser_train_model.parser_train_model_params. Qed.
+Print Assumptions C18_source_parser_train_model_params.
+
+Theorem C18_source_parser_prepare_retrospective_simulation_fields :
+  forall f, In f (Cli.pr_fields ++ Cli.logging_fields) -> Cli.declares SrcParser_prepare_retrospective_simulation.src_parser_prepare_retrospective_simulation f.
+Proof. exact C18SourceParser_prepare_retrospective_simulation.parser_prepare_retrospective_simulation_fields. Qed.
+Print Assumptions C18_source_parser_prepare_retrospective_simulation_fields.
+
+Theorem C18_source_parser_prepare_retrospective_simulation_dests_derived :
+  Cli.dests_derived SrcParser_prepare_retrospective_simulation.src_parser_prepare_retrospective_simulation.
+Proof. exact C18SourceParser_prepare_retrospective_simulation.parser_prepare_retrospective_simulation_dests_derived. Qed.
+Print Assumptions C18_source_parser_prepare_retrospective_simulation_dests_derived.
+
+Theorem C18_source_parser_prepare_retrospective_simulation_dests_distinct :
+  Cli.dests_distinct SrcParser_prepare_retrospective_simulation.src_parser_prepare_retrospective_simulation.
+Proof. exact C18SourceParser_prepare_retrospective_simulation.parser_prepare_retrospective_simulation_dests_distinct. Qed.
+Print Assumptions C18_source_parser_prepare_retrospective_simulation_dests_distinct.
+
+Theorem C18_source_parser_prepare_retrospective_simulation_seed :
+  Cli.seed_declared SrcParser_prepare_retrospective_simulation.src_parser_prepare_retrospective_simulation.
+Proof. exact C18SourceParser_prepare_retrospective_simulation.parser_prepare_retrospective_simulation_seed. Qed.
+Print Assumptions C18_source_parser_prepare_retrospective_simulation_seed.
+
+Theorem C18_source_parser_prepare_retrospective_simulation_params :
+  Cli.params_kv SrcParser_prepare_retrospective_simulation.src_parser_prepare_retrospective_simulation.
+Proof. exact C18SourceParser_prepare_retrospective_simulation.parser_prepare_retrospective_simulation_params. Qed.
+Print Assumptions C18_source_parser_prepare_retrospective_simulation_params.
+
+Theorem C18_source_parser_prepare_retrospective_simulation_fraction :
+  Cli.fraction_declared SrcParser_prepare_retrospective_simulation.src_parser_prepare_retrospective_simulation.
+Proof. exact C18SourceParser_prepare_retrospective_simulation.parser_prepare_retrospective_simulation_fraction. Qed.
+Print Assumptions C18_source_parser_prepare_retrospective_simulation_fraction.
+
+Theorem C18_source_parser_reveal_plate_fields :
+  forall f, In f (Cli.rp_fields ++ Cli.logging_fields) -> Cli.declares SrcParser_reveal_plate.src_parser_reveal_plate f.
+Proof. exact C18SourceParser_reveal_plate.parser_reveal_plate_fields. Qed.
+Print Assumptions C18_source_parser_reveal_plate_fields.
+
+Theorem C18_source_parser_reveal_plate_dests_derived :
+  Cli.dests_derived SrcParser_reveal_plate.src_parser_reveal_plate.
+Proof. exact C18SourceParser_reveal_plate.parser_reveal_plate_dests_derived. Qed.
+Print Assumptions C18_source_parser_reveal_plate_dests_derived.
+
+Theorem C18_source_parser_reveal_plate_dests_distinct :
+  Cli.dests_distinct SrcParser_reveal_plate.src_parser_reveal_plate.
+Proof. exact C18SourceParser_reveal_plate.parser_reveal_plate_dests_distinct. Qed.
+Print Assumptions C18_source_parser_reveal_plate_dests_distinct.
+
+Theorem C18_source_parser_extract_screen_metadata_fields :
+  forall f, In f (Cli.em_fields ++ Cli.logging_fields) -> Cli.declares SrcParser_extract_screen_metadata.src_parser_extract_screen_metadata f.
+Proof. exact C18SourceParser_extract_screen_metadata.parser_extract_screen_metadata_fields. Qed.
+Print Assumptions C18_source_parser_extract_screen_metadata_fields.
+
+Theorem C18_source_parser_extract_screen_metadata_dests_derived :
+  Cli.dests_derived SrcParser_extract_screen_metadata.src_parser_extract_screen_metadata.
+Proof. exact C18SourceParser_extract_screen_metadata.parser_extract_screen_metadata_dests_derived. Qed.
+Print Assumptions C18_source_parser_extract_screen_metadata_dests_derived.
+
+Theorem C18_source_parser_extract_screen_metadata_dests_distinct :
+  Cli.dests_distinct SrcParser_extract_screen_metadata.src_parser_extract_screen_metadata.
+Proof. exact C18SourceParser_extract_screen_metadata.parser_extract_screen_metadata_dests_distinct. Qed.
+Print Assumptions C18_source_parser_extract_screen_metadata_dests_distinct.
+
+Theorem C18_source_parser_calculate_distance_matrix_fields :
+  forall f, In f (Cli.cd_fields ++ Cli.logging_fields) -> Cli.declares SrcParser_calculate_distance_matrix.src_parser_calculate_distance_matrix f.
+Proof. exact C18SourceParser_calculate_distance_matrix.parser_calculate_distance_matrix_fields. Qed.
+Print Assumptions C18_source_parser_calculate_distance_matrix_fields.
+
+Theorem C18_source_parser_calculate_distance_matrix_dests_derived :
+  Cli.dests_derived SrcParser_calculate_distance_matrix.src_parser_calculate_distance_matrix.
+Proof. exact C18SourceParser_calculate_distance_matrix.parser_calculate_distance_matrix_dests_derived. Qed.
+Print Assumptions C18_source_parser_calculate_distance_matrix_dests_derived.
+
+Theorem C18_source_parser_calculate_distance_matrix_dests_distinct :
+  Cli.dests_distinct SrcParser_calculate_distance_matrix.src_parser_calculate_distance_matrix.
+Proof. exact C18SourceParser_calculate_distance_matrix.parser_calculate_distance_matrix_dests_distinct. Qed.
+Print Assumptions C18_source_parser_calculate_distance_matrix_dests_distinct.
+
+Theorem C18_source_parser_calculate_distance_matrix_coordinates :
+  Cli.coordinates_int SrcParser_calculate_distance_matrix.src_parser_calculate_distance_matrix.
+Proof. exact C18SourceParser_calculate_distance_matrix.parser_calculate_distance_matrix_coordinates. Qed.
+Print Assumptions C18_source_parser_calculate_distance_matrix_coordinates.
+
+Theorem C18_source_parser_calculate_distance_matrix_params :
+  Cli.params_kv SrcParser_calculate_distance_matrix.src_parser_calculate_distance_matrix.
+Proof. exact C18SourceParser_calculate_distance_matrix.parser_calculate_distance_matrix_params. Qed.
+Print Assumptions C18_source_parser_calculate_distance_matrix_params.
+
+Theorem C18_source_parser_evaluate_model_fields :
+  forall f, In f (Cli.ev_fields ++ Cli.logging_fields) -> Cli.declares SrcParser_evaluate_model.src_parser_evaluate_model f.
+Proof. exact C18SourceParser_evaluate_model.parser_evaluate_model_fields. Qed.
+Print Assumptions C18_source_parser_evaluate_model_fields.
+
+Theorem C18_source_parser_evaluate_model_dests_derived :
+  Cli.dests_derived SrcParser_evaluate_model.src_parser_evaluate_model.
+Proof. exact C18SourceParser_evaluate_model.parser_evaluate_model_dests_derived. Qed.
+Print Assumptions C18_source_parser_evaluate_model_dests_derived.
+
+Theorem C18_source_parser_evaluate_model_dests_distinct :
+  Cli.dests_distinct SrcParser_evaluate_model.src_parser_evaluate_model.
+Proof. exact C18SourceParser_evaluate_model.parser_evaluate_model_dests_distinct. Qed.
+Print Assumptions C18_source_parser_evaluate_model_dests_distinct.
+
+Theorem C18_source_parser_analyze_model_evaluation_fields :
+  forall f, In f (Cli.am_fields ++ Cli.logging_fields) -> Cli.declares SrcParser_analyze_model_evaluation.src_parser_analyze_model_evaluation f.
+Proof. exact C18SourceParser_analyze_model_evaluation.parser_analyze_model_evaluation_fields. Qed.
+Print Assumptions C18_source_parser_analyze_model_evaluation_fields.
+
+Theorem C18_source_parser_analyze_model_evaluation_dests_derived :
+  Cli.dests_derived SrcParser_analyze_model_evaluation.src_parser_analyze_model_evaluation.
+Proof. exact C18SourceParser_analyze_model_evaluation.parser_analyze_model_evaluation_dests_derived. Qed.
+Print Assumptions C18_source_parser_analyze_model_evaluation_dests_derived.
+
+Theorem C18_source_parser_analyze_model_evaluation_dests_distinct :
+  Cli.dests_distinct SrcParser_analyze_model_evaluation.src_parser_analyze_model_evaluation.
+Proof. exact C18SourceParser_analyze_model_evaluation.parser_analyze_model_evaluation_dests_distinct. Qed.
+Print Assumptions C18_source_parser_analyze_model_evaluation_dests_distinct.
+
+(* what seed_declared is for: on the default seed, the generator construction of the wrappers (Cli.prng_of_seed, linked to
+   get_prng_from_seed_argument by C18_model_is_source_cli_get_prng_from_seed_argument) succeeds *)
+Theorem C18_parser_seed_default_draws : forall (tbl : list Cli.argopt), Cli.seed_declared tbl ->
+  forall mix : Z -> Z, exists o z, Cli.opts_with_dest tbl Cli.s_seed = [o] /\ Cli.opt_default o = Cli.LInt z
+                                   /\ Cli.prng_of_seed mix z = Ok (Cli.Gen (mix z)).
+Proof. exact C18Parser.seed_declared_default_draws. Qed.
+Print Assumptions C18_parser_seed_default_draws.
+
+From Coq Require String.
+Module ParserExamples.
+Import String.
+(* the reading of one declaration (Cli.opt_dest / opt_default / opt_kind / opt_may_be_none) on the shapes that occur, and on the
+   realistic slips the table theorems exclude: *)
+Definition ex_opt (flags : list String.string) (dest : option String.string) (ty : option Cli.argtype) (default : option Cli.pylit)
+  (required : bool) (action : Cli.argaction) (nargs : option Cli.argnargs) : Cli.argopt :=
+  Cli.mk_argopt (map Cli.str_of_string flags) (option_map Cli.str_of_string dest)
+                (Cli.opt_dest (Cli.mk_argopt (map Cli.str_of_string flags) (option_map Cli.str_of_string dest) [] None None false Cli.ActStore None None))
+                ty default required action nargs None.
+Example C18_parser_reading_examples :
+  (* dest derivation: the first long flag, dashes to underscores; an explicit dest= wins *)
+  Cli.o_dest (ex_opt ["-P"; "--progress"]%string None None None false Cli.ActStoreTrue None) = Cli.str_of_string "progress" /\
+  Cli.o_dest (ex_opt ["--n-chunks"]%string None (Some Cli.TInt) (Some (Cli.LInt 1)) false Cli.ActStore None) = Cli.str_of_string "n_chunks" /\
+  Cli.o_dest (ex_opt ["--n-chunks"]%string (Some "chunks"%string) (Some Cli.TInt) (Some (Cli.LInt 1)) false Cli.ActStore None) = Cli.str_of_string "chunks" /\
+  (* --seed, type=int, default=0: an int, never None; with default=None it may be None *)
+  Cli.opt_kind (ex_opt ["--seed"]%string None (Some Cli.TInt) (Some (Cli.LInt 0)) false Cli.ActStore None) = Some Cli.KInt /\
+  Cli.opt_may_be_none (ex_opt ["--seed"]%string None (Some Cli.TInt) (Some (Cli.LInt 0)) false Cli.ActStore None) = false /\
+  Cli.opt_may_be_none (ex_opt ["--seed"]%string None (Some Cli.TInt) (Some Cli.LNone) false Cli.ActStore None) = true /\
+  (* type=int dropped from --chunk-index: the words stay strings while the default is an int - no kind *)
+  Cli.opt_kind (ex_opt ["--chunk-index"]%string None None (Some (Cli.LInt 0)) false Cli.ActStore None) = None /\
+  Cli.opt_kind (ex_opt ["--chunk-index"]%string None None None true Cli.ActStore None) = Some Cli.KStr /\
+  (* a --*-param option: KVAppendAction with nargs=1 is a KEY=VALUE dict or None; action="append" has no kind here *)
+  Cli.opt_kind (ex_opt ["--model-param"]%string None None None false Cli.ActKVAppend (Some (Cli.NInt 1))) = Some Cli.KKV /\
+  Cli.opt_kind (ex_opt ["--model-param"]%string None None None false Cli.ActAppend (Some (Cli.NInt 1))) = None /\
+  Cli.opt_kind (ex_opt ["--model-param"]%string None None None false Cli.ActKVAppend None) = None /\
+  (* nargs="+" with type=int and default=list(): a list of ints, never None; store_true without default: False *)
+  Cli.opt_kind (ex_opt ["--plate-id"]%string None (Some Cli.TInt) (Some Cli.LEmptyList) false Cli.ActStore (Some Cli.NPlus)) = Some (Cli.KList Cli.KInt) /\
+  Cli.opt_default (ex_opt ["-v"]%string None None None false Cli.ActStoreTrue None) = Cli.LBool false.
+Proof. vm_compute. repeat split; reflexivity. Qed.
+End ParserExamples.
